@@ -116,7 +116,7 @@ def run_terms(sh, which):
                     check_term(sh, which, term, w, f, strat)
                     sh.case((term, w, f, strat))
         sh.counters['long-tail terms (deep look-ahead)'] += 1
-    for i in range(8000 if quick else 250000):
+    for i in range(8000 if quick else 1000000):
         idx += 1
         if not sh.mine(idx):
             continue
